@@ -39,8 +39,13 @@ KINDS = ["entry", "string", "preamble", "expl", "impl"]
 HOWS = ["none", "empty", "same", ["dup", "", ""], ["dup", "X"], ["dup", "1", "2", "3"], "illegal", "illegal_falsy", "badcoll"]
 
 
-def _probe(spec):
-    """real middleware object for a wire spec"""
+_CLASSES = {}
+
+
+def _classes():
+    """the probe classes, defined once: a stack may hold several INSTANCES of the same class"""
+    if _CLASSES:
+        return _CLASSES
     from bibtexparser.middlewares.middleware import BlockMiddleware
     from bibtexparser import model as M
 
@@ -54,47 +59,52 @@ def _probe(spec):
             nb.comment = b.comment + t
         return nb
 
-    if spec[0] == "tag":
-        class Tag(BlockMiddleware):
-            # returns a new entry object: the model has value semantics, so a probe must not mutate an
-            # object that a DuplicateBlockKeyBlock still references as its previous_block
-            def transform_entry(self, entry, library):
-                return retag(entry, spec[1])
-        return Tag()
+    class Tag(BlockMiddleware):
+        # returns a new entry object: the model has value semantics, so a probe must not mutate an
+        # object that a DuplicateBlockKeyBlock still references as its previous_block
+        def __init__(self, t):
+            super().__init__()
+            self.t = t
 
-    if spec[0] == "vtag":
-        class VTag(BlockMiddleware):
-            # appends its tag to every str field value: does not commute with Add/RemoveEnclosing
-            def transform_entry(self, entry, library):
-                ne = copy.copy(entry)
-                ne.fields = [M.Field(f.key, f.value + spec[1] if isinstance(f.value, str) else f.value, f.start_line)
-                             for f in entry.fields]
-                return ne
-        return VTag()
+        def transform_entry(self, entry, library):
+            return retag(entry, self.t)
 
-    kind, how = spec[1], spec[2]
+    class VTag(BlockMiddleware):
+        # appends its tag to every str field value: does not commute with Add/RemoveEnclosing
+        def __init__(self, t):
+            super().__init__()
+            self.t = t
+
+        def transform_entry(self, entry, library):
+            ne = copy.copy(entry)
+            ne.fields = [M.Field(f.key, f.value + self.t if isinstance(f.value, str) else f.value, f.start_line)
+                         for f in entry.fields]
+            return ne
 
     class Splice(BlockMiddleware):
-        n = 0
+        def __init__(self, kind, how):
+            super().__init__()
+            self.kind, self.how, self.n = kind, how, 0
 
         def _res(self, b, k):
+            kind, how = self.kind, self.how
             if k != kind:
                 return b
-            Splice.n += 1
+            self.n += 1
             if how == "none":
                 return None
             if how == "empty":
-                return [[], (), "", {}][Splice.n % 4]
+                return [[], (), "", {}][self.n % 4]
             if how == "same":
                 return b
             if how == "illegal":
-                return [5, (x for x in [b]), object()][Splice.n % 3]
+                return [5, (x for x in [b]), object()][self.n % 3]
             if how == "illegal_falsy":       # falsy non-blocks must raise TypeError too, not be dropped like None
-                return [False, 0, 0.0][Splice.n % 3]
+                return [False, 0, 0.0][self.n % 3]
             if how == "badcoll":
-                return [[b, 5], "abc", (None,)][Splice.n % 3]
+                return [[b, 5], "abc", (None,)][self.n % 3]
             items = [retag(b, t) for t in how[1:]]
-            return items if Splice.n % 2 else tuple(items)
+            return items if self.n % 2 else tuple(items)
 
         def transform_entry(self, e, library):
             return self._res(e, "entry")
@@ -110,7 +120,19 @@ def _probe(spec):
 
         def transform_implicit_comment(self, c, library):
             return self._res(c, "impl")
-    return Splice()
+
+    _CLASSES.update(Tag=Tag, VTag=VTag, Splice=Splice)
+    return _CLASSES
+
+
+def _probe(spec):
+    """real middleware object for a wire spec"""
+    c = _classes()
+    if spec[0] == "tag":
+        return c["Tag"](spec[1])
+    if spec[0] == "vtag":
+        return c["VTag"](spec[1])
+    return c["Splice"](spec[1], spec[2])
 
 
 def _kind(b):
